@@ -47,7 +47,7 @@ def look(t):
     while True:
         if t[0] in ("ref", "deref"):
             t = t[1]
-        elif t[0] == "call" and t[1].split("::")[0] in ("std", "core", "alloc") and last_seg(t[1]) in ("deref", "as_str", "as_bytes", "as_slice", "as_ref", "borrow", "deref_mut", "as_mut") and len(t[2]) == 1:
+        elif t[0] == "call" and t[1].split("::")[0] in ("std", "core", "alloc") and last_seg(t[1]) in ("deref", "as_str", "as_bytes", "as_slice", "as_ref", "borrow", "deref_mut", "as_mut", "as_deref", "as_deref_mut", "as_mut_slice", "borrow_mut") and len(t[2]) == 1:
             t = t[2][0]
         elif t[0] == "cast" and "PointerCoercion" in t[3]:
             t = t[1]
